@@ -82,7 +82,9 @@ impl DecisionTracker {
         let decision = self.stack.pop().unwrap();
         self.map.reset(decision.variable);
 
-        self.propagate_index = self.stack.len();
+        // Decisions that are still on the stack but have not been propagated yet (a rejected
+        // soft requirement is recorded as `false` without propagating it) must stay unpropagated.
+        self.propagate_index = self.propagate_index.min(self.stack.len());
 
         let top_decision = self.stack.last().unwrap();
         (decision, self.map.level(top_decision.variable))
